@@ -16,6 +16,7 @@ RULE = ("case = (shape N=2..4 (5 in thorough) with sizes 1..3 cubical per group,
 ANCHORS = ["tensor:tensor.symmetrize", "tensor:tensor.issymmetric", "ktensor:ktensor.symmetrize", "ktensor:ktensor.issymmetric"]
 EXHAUSTIVE = {"quick": {"sets of disjoint equal-length groups over N<=4 modes": "complete"},
               "thorough": {"sets of disjoint equal-length groups over N<=5 modes": "complete"}}
+NPINT_ARGS = True     # a quarter of the cases pass their integer arguments as NumPy integers (core.Ctx.begin)
 WATCHDOG = {"quick": 600, "thorough": 3000}
 
 
